@@ -336,3 +336,78 @@ Proof.
         -- apply D5. rewrite Hp. reflexivity.
         -- rewrite (D2 e) in A by (rewrite Hp; reflexivity). discriminate.
 Qed.
+
+Lemma invL_init progs : invL (init progs).
+Proof.
+  split.
+  - intros t th e H Hp. cbn in H. rewrite nth_error_map in H. destruct (nth_error progs t); inversion H; subst.
+    cbn in Hp. destruct Hp; discriminate.
+  - intros st q H. destruct H.
+Qed.
+
+Lemma stmt_noerr_init progs : stmt_noerr (init progs).
+Proof. intros e st H. unfold ent in H. cbn in H. destruct e; discriminate. Qed.
+
+Lemma invL_reach progs s : reach progs s -> s_stolen s = false -> invL s.
+Proof.
+  intro Hr.
+  assert (G : (invC s /\ invD s) /\ stmt_noerr s /\ (s_stolen s = false -> invL s)).
+  { revert s Hr. apply (reach_ind progs (fun s => (invC s /\ invD s) /\ stmt_noerr s /\ (s_stolen s = false -> invL s))).
+    - split; [split; [apply invC_init|apply invD_init]|]. split; [apply stmt_noerr_init|]. intros _. apply invL_init.
+    - intros s0 t c s1 [[IC ID] [SN IL]] H. apply step_inv in H. destruct H as [th [l [Ht Hs]]].
+      split; [split; [eapply invC_step|eapply invD_step]; eauto|].
+      split; [eapply stmt_noerr_step; eauto|].
+      intro Hst. eapply invL_step; eauto. apply IL. eapply step_stolen_mono; eauto. }
+  tauto.
+Qed.
+
+(* Safety form of "every statement the cache prepared is eventually closed", PARTIAL: as long as
+   no delete-by-text removed an entry that was not the deleter's own, every successfully prepared
+   pool-level statement is closed, or a spawned goroutine is about to close it, or an entry carries
+   it that is in the current map or has a live closer. *)
+Lemma closed_eventually_partial progs s st q :
+  reach progs s -> s_stolen s = false -> In (st, q, false) (s_prep s) -> safe s st.
+Proof. intros Hr Hs. destruct (invL_reach _ _ Hr Hs) as [_ LS]. apply LS. Qed.
+
+Lemma all_done_no_thr s (P : pc -> Prop) : all_done s = true -> ~ P Idle -> ~ has_thr s P.
+Proof.
+  intros Hd Hn [t [th [Ht Hp]]]. unfold all_done in Hd. rewrite forallb_forall in Hd.
+  specialize (Hd th (nth_error_In _ _ Ht)). unfold thread_done in Hd.
+  destruct (t_pc th); try discriminate. exact (Hn Hp).
+Qed.
+
+(* at quiescence: every pool-level statement still open is cached in the current map *)
+Lemma quiescent_open_is_cached progs s st :
+  reach progs s -> s_stolen s = false -> all_done s = true -> In st (leaked s) ->
+  exists k e, mlookup (s_map s) k = Some e /\ e_stmt (ent s e) = Some st.
+Proof.
+  intros Hr Hs Hd Hi. unfold leaked in Hi. apply in_map_iff in Hi. destruct Hi as [[[st' q] b] [E Hf]].
+  cbn in E. subst st'. apply filter_In in Hf. destruct Hf as [Hin Hc]. cbn in Hc.
+  apply andb_prop in Hc. destruct Hc as [Hb Hc]. destruct b; [discriminate|].
+  apply negb_true_iff in Hc.
+  destruct (closed_eventually_partial _ _ _ _ Hr Hs Hin) as [[Hm|Hth]|[e [Hca [_ Hcov]]]].
+  - congruence.
+  - exfalso. eapply all_done_no_thr; eauto. discriminate.
+  - destruct Hca as [Hst|Hth]; [|exfalso; eapply all_done_no_thr; eauto; intros [?|?]; discriminate].
+    destruct Hcov as [[k Hk]|Hth]; [eauto|].
+    exfalso. eapply all_done_no_thr; eauto. discriminate.
+Qed.
+
+(* ... hence after a final Close (nil map) nothing is left open *)
+Lemma leak_free_partial progs s :
+  reach progs s -> s_stolen s = false -> all_done s = true -> s_map s = None -> leaked s = [].
+Proof.
+  intros Hr Hs Hd Hm. destruct (leaked s) as [|st r] eqn:E; [reflexivity|].
+  destruct (quiescent_open_is_cached progs s st Hr Hs Hd) as [k [e [Hk _]]]; [rewrite E; left; reflexivity|].
+  rewrite Hm in Hk. discriminate.
+Qed.
+
+(* theft needs a driver fault: schedules in which every Prepare and every execution succeeds
+   never set the flag *)
+Definition fault_free (s : state) : Prop :=
+  s_stolen s = false /\ s_fails s = [] /\ s_evicts s = [] /\
+  thr_inv s (fun th => match t_pc th with
+                       | P11 _ | P11b _ | P11c _ | X2 _ | X2b _ => False
+                       | X1r _ o => o = CExecOk
+                       | Ret r => r <> RErrBad /\ r <> RErrOther
+                       | _ => True end).
